@@ -106,7 +106,16 @@ class ProgKbd(KeyboardInterrupt):
         self.tag = tag
 
 
+class ProgAbort(BaseException):
+    """not an Exception (like asyncio's CancelledError): scopes wrap it like any failure - but
+    `Concurrent` insists on Exception subclasses by an assertion, so only under -O"""
+    def __init__(self, tag):
+        super().__init__(tag)
+        self.tag = tag
+
+
 EXC_TYPES = {
+    'abort': ProgAbort,
     'err': ProgErr, 'lookup': ProgLookup, 'key': ProgKey, 'index': ProgIndex,
     'assert': ProgAssert, 'exit': ProgExit, 'kbd': ProgKbd, 'eq': ProgEq, 'falsy': ProgFalsy,
     'stream': ProgStream, 'unavailable': ProgUnavailable, 'interval': ProgInterval,
